@@ -395,12 +395,15 @@ impl Responder {
             let status = carrier.send_transaction(&tracker.penalty_tx);
             if let ConfirmationStatus::Rejected(_) = status {
                 rejected.push(uuid);
-            } else {
-                // DISCUSS: What if the tower was down for some time and was later force updated while this penalty got on-chain?
-                // Sending it will yield `ConfirmationStatus::IrrevocablyResolved` which would panic here.
-                // We might want to replace `ConfirmationStatus::IrrevocablyResolved` variant with
-                // `ConfirmationStatus::ConfirmedIn(height - IRREVOCABLY_RESOLVED)
+            } else if status.accepted() {
                 dbm.update_tracker_status(uuid, &status).unwrap();
+            } else {
+                // The node already has the penalty in its chain (`ConfirmationStatus::IrrevocablyResolved`), e.g. in a block
+                // we have not processed yet. There is nothing to update: the tracker will get its confirmation when we get there.
+                log::info!(
+                    "Penalty transaction already in the node's chain: {}",
+                    tracker.penalty_tx.compute_txid()
+                );
             }
         }
 
